@@ -31,6 +31,7 @@ RULE = (
     'distinct = (loader, fault kind, prefix length / garbage bytes).'
 )
 RULE += ' Added in rounds 7-10: digit-shift and checksum-collision argument variants; foreign cache-like files (<stem>.cache of another load, stale .tmp) next to the sources.'
+RULE += ' Round 12: to_cache / from_cache round trip of hand-built trajectories (unwrapped raw coordinates with values exactly 0, 1, -1, 2, 1-2^-53, in position form and in displacement form with whole-lattice-vector steps).'
 ASSUMPTIONS = [
     'synthetic loader inputs exercise the loaders\' control flow, not the variety of real simulation output',
     'garbage that happens to be a loadable pickle of some other object is outside the statement ("unreadable") and is skipped and counted',
@@ -290,6 +291,26 @@ def _run_cfg(unit, rng, ctx, loader, d):
         probe.to_cache(rt_path)
         b2 = T.from_cache(rt_path)
         ctx.check(same(b2, probe) and np.array_equal(np.asarray(b2.positions), np.asarray(probe.positions)), f'{what}: round trip in {mode} representation changed the trajectory', wit)
+    # ... and for a trajectory that did not come from a loader: raw coordinates as a user hands them over (unwrapped,
+    # values exactly on cell faces, whole lattice vectors), in position form and in displacement form
+    from gv import gen as _gen
+    for _rep in range(6):
+        nT, nA = int(rng.integers(1, 7)), int(rng.integers(1, 5))
+        raw = rng.uniform(-1.5, 2.5, size=(nT, nA, 3))
+        special = np.array([0.0, 1.0, 1.0, -1.0, 2.0, 0.5, -0.0, 1.0 - 2.0**-53, 1.0 + 2.0**-52])
+        pick = rng.uniform(size=raw.shape) < 0.35
+        raw[pick] = special[rng.integers(len(special), size=int(pick.sum()))]
+        hm = np.asarray(fresh.lattice, dtype=float).reshape(-1, 3, 3)[0]
+        hsp = [str(x) for x in rng.choice(['Li', 'O', 'S', 'Na'], size=nA)]
+        for disp in (False, True):
+            kw_h = {'coords_are_displacement': True, 'base_positions': raw[0].copy()} if disp else {}
+            hand = _gen.make_trajectory(hm, hsp, raw, time_step=float(rng.choice([1e-15, 2.5e-15])), metadata={'temperature': 450.0, 'note': 'hand-built'}, presentation='plain', **kw_h)
+            before = pickle.loads(pickle.dumps(hand))
+            hand.to_cache(rt_path)
+            hb = T.from_cache(rt_path)
+            ctx.check(same(hb, before) and same(hand, before), f'{what}: round trip of a hand-built trajectory ({"displacement" if disp else "position"} form, raw coordinates with exact 0 / 1 / -1 / 2) changed it', {**wit, 'raw': raw, 'got': np.asarray(hb.coords)})
+            ctx.count('hand_built_round_trips')
+            ctx.count('hand_built_round_trips_with_a_raw_coordinate_exactly_1', bool((raw == 1.0).any()))
     os.unlink(rt_path)
     # (2) load with the cache present: same result, sources untouched
     with audited() as log:
